@@ -61,6 +61,22 @@ CLAIMED = {
          "Decides independence from Go map iteration order structurally: every range over a map is commutative, collect-then-sort (sorted before any other use) or an exists-failure exit; wall-clock/random inputs forbidden. One known finding (the detector's map branch returns the verdict of the first entry yielded). Does not decide equality of results.",
          "Effect classes of callees (pure/keyed/ordered) come from a summariser with a small table of ordered sinks.",
          "DESIGN.md §4 C15"),
+ "C18": ("offset-invariant and codec-table analysis on common.ZeroCopySource/Sink (A6/A7): clamped stores, who-may-slice, writer/reader width and var-uint table agreement",
+         "Decides for all byte strings: the read offset is only ever assigned a value clamped to the data length (or a guarded increment), the backing slice is sliced/indexed only with those values, non-minimal var-uints are flagged, fixed-width and var-uint tables of writer and reader agree, the io.Reader variant bounds its up-front allocation. Round-trip value equality is not decided.",
+         "BackUp is unchecked by design; its call sites are constrained to constants / position differences.",
+         "DESIGN.md §4 C18"),
+ "C19": ("range/ordering analysis of Transaction.Deserialization (A3/A5), guard analysis of size limits (A2), decoder discipline (A7) over functions reachable from transaction decoding, strict-RLP who-may-call rule",
+         "Decides for all byte strings: serialization writes exactly Raw; Raw is the consumed source range; the hash covers the range that ends before the signature section; size limits guard success; decoders consume eof/irregular and bound decoded sizes; the EIP-155 payload is decoded with the strict RLP decoder only. RLP canonicity itself is assumed.",
+         "go-ethereum rlp.DecodeBytes rejects trailing bytes and non-canonical encodings.",
+         "DESIGN.md §4 C19"),
+ "C24": ("guard analysis of ReadMessage (A2), registry exhaustiveness (A10), decoder discipline (A7) over every function reachable from the p2p message decoders",
+         "Decides for every frame/payload: allocation and acceptance only after magic, length<=MAX_PAYLOAD_LEN and checksum tests; every constant-command message type is constructed by makeEmptyMessage; every decoder (incl. nested core types) consumes irregular/eof and never sizes/slices by an unchecked decoded integer. Three genuine defects found by these rules were repaired (see known_findings.json 'fixed'). Byte-exact round trip of nested core types is C19/C20.",
+         "readMessageHeader reads a fixed-size buffer (table exemption for its eof results).",
+         "DESIGN.md §4 C24"),
+ "C25": ("tag registry + per-tag layout agreement on the syntax tree (A10/A6), decoder discipline (A7), recursion bound (A8), narrowing-accessor lint",
+         "Decides structurally: every tag has encoder and decoder with the same field layout; malformed input is rejected (eof/irregular consumed, no allocation by decoded length); decoding recursion is cut by checked reads; big integers are narrowed only under an explicit range test. Value equality after a round trip is not decided.",
+         "Encoders and stringify recurse over in-memory values (table entries with reasons).",
+         "DESIGN.md §4 C25"),
 }
 
 NOT_APPLICABLE = {
